@@ -1051,6 +1051,13 @@ def p_one( ctx ):
                 res.ok( src, s_.stmt, '%s: sent bytes = enip_encode( data.response.enip ) of this iteration' % qn )
             else:
                 res.bad( src, s_.stmt, s_.stmt, 'the reply sent must be enip_encode( data.response.enip ) computed in the same iteration', func=qn )
+        # replies are written with blocking sends: no socket timeout / non-blocking mode on the connection (receive timeouts are done with select in network.recv)
+        for scope in ( fn, src.get( 'enip_srv', required=False )):
+            if scope is None:
+                continue
+            for c in ast.walk( scope ):
+                if isinstance( c, ast.Call ) and isinstance( c.func, ast.Attribute ) and c.func.attr in ( 'settimeout', 'setblocking' ) and dotted( c.func.value ) == 'conn':
+                    res.bad( src, c, c, 'a timeout / non-blocking mode on the connection socket makes conn.send fail or send partially when the client pipelines many requests before reading: replies are dropped or truncated', func=qn )
         # strictly sequential: no thread / queue / deferred send in the connection handler
         for c in ast.walk( fn ):
             if isinstance( c, ast.Call ) and ( call_name( c ).split( '.' )[-1] in ( 'Thread', 'start_new_thread', 'Queue', 'submit', 'apply_async', 'Process' )):
@@ -1283,12 +1290,12 @@ def a_offsets( ctx ):
                         res.ok( src, c, 'produced offset = %s = 2 + 2*N + running offset' % norm_text( c.args[0] ))
                     else:
                         res.bad( src, c, c.args[0], 'each offset in the table must be 2 + 2*N + (sum of the preceding message lengths): the first embedded message starts right after the count and the N offsets' )
-    if n != 2:
-        raise AnalysisError( 'Message_Router.produce: expected 2 offset-table emitters, found %d' % n )
+    if n < 1:
+        raise AnalysisError( 'Message_Router.produce: no offset-table emitter found' )
     # count field = len( offsets )
     cnts = [ c for c in ast.walk( pr ) if is_call_to( c, 'UINT.produce' ) and c.args and pmatch( c.args[0], 'len( offsets )' ) ]
-    if len( cnts ) == 2:
-        res.ok( src, cnts[0], 'count field = len( offsets ) in request and reply' )
+    if len( cnts ) == n:
+        res.ok( src, cnts[0], 'count field = len( offsets ) wherever an offset table is emitted' )
     else:
         res.bad( src, pr, 'Message_Router.produce count', 'the count field must be the number of offsets (= number of embedded messages)' )
     # the parser closure
@@ -1315,55 +1322,105 @@ def a_offsets( ctx ):
     return res
 
 
-def _multiple_loops( pr ):
-    return [ f for f in ast.walk( pr ) if isinstance( f, ast.For ) and 'multiple' in attrs_in( f.iter ) ]
+def _member_loops( src, pr ):
+    """loops of Message_Router.produce (also inside local helpers) that accumulate encoded members: -> [ ( For, branches ) ], branches a subset of { 'REQ', 'RPY' }"""
+    def branch_of( node ):
+        out = set()
+        for a_ in src.ancestors( node ):
+            if isinstance( a_, ast.If ):
+                inb = any( node is x or any( node is y for y in ast.walk( x )) for x in a_.body )
+                if inb and 'MULTIPLE_REQ' in txt( a_.test ):
+                    out.add( 'REQ' )
+                if inb and 'MULTIPLE_RPY' in txt( a_.test ):
+                    out.add( 'RPY' )
+            if a_ is pr:
+                break
+        return out
+    loops = []
+    for f in ast.walk( pr ):
+        if not isinstance( f, ast.For ):
+            continue
+        acc = [ s_ for s_ in f.body if isinstance( s_, ast.Assign ) and isinstance( s_.targets[0], ast.Name )
+                and ( pmatch( s_.value, '_new + %s' % s_.targets[0].id ) or pmatch( s_.value, '%s + _new' % s_.targets[0].id )) ]
+        if not acc:
+            continue
+        helper = src.enclosing( f, ( ast.FunctionDef, ))
+        if helper is pr:
+            br = branch_of( f )
+        else:
+            br = set()
+            for c in ast.walk( pr ):
+                if isinstance( c, ast.Call ) and call_name( c ) == helper.name:
+                    br |= branch_of( c )
+        loops.append(( f, br ))
+    return loops
 
 
 @rule( 'P-ORDER', props=( 'C07', ), floor=2 )
 def p_order( ctx ):
-    """Multiple Service produce loops: iteration order and accumulation direction pair up (reversed with prepend, forward with append)"""
+    """Multiple Service produce loops: iteration order and accumulation direction pair up; request members are always freshly produced (never taken from a stale .input)"""
     res = Result( 'P-ORDER' )
     src = ctx.src( DEVICE )
     pr = src.get( 'Message_Router.produce' )
-    loops = _multiple_loops( pr )
-    if len( loops ) != 2:
-        raise AnalysisError( 'Message_Router.produce: expected two member loops, found %d' % len( loops ))
-    for f in loops:
+    loops = _member_loops( src, pr )
+    if not loops:
+        raise AnalysisError( 'Message_Router.produce: no member loop found' )
+    covered = set()
+    for f, branches in loops:
+        covered |= branches
         it = f.iter
-        if is_call_to( it, 'reversed' ) and it.args and txt( it.args[0] ) == 'data.multiple.request':
-            d_iter = 'rev'
-        elif txt( it ) == 'data.multiple.request':
-            d_iter = 'fwd'
-        else:
-            res.bad( src, f, it, 'members must be produced from data.multiple.request itself (not sorted/sliced/filtered)' ); continue
+        inner = it.args[0] if is_call_to( it, 'reversed' ) and it.args else it
+        d_iter = 'rev' if is_call_to( it, 'reversed' ) else 'fwd'
+        if is_call_to( inner, 'sorted', 'list', 'filter' ) or isinstance( inner, ast.Subscript ):
+            res.bad( src, f, it, 'members must be produced from the member list itself (not sorted/sliced/filtered)' ); continue
         d_data = d_off = None
         new = None
-        for s in f.body:
-            if isinstance( s, ast.Assign ) and isinstance( s.targets[0], ast.Name ):
-                t = s.targets[0].id
-                m = pmatch( s.value, '_new + %s' % t )
+        for s_ in f.body:
+            if isinstance( s_, ast.Assign ) and isinstance( s_.targets[0], ast.Name ):
+                t = s_.targets[0].id
+                m = pmatch( s_.value, '_new + %s' % t )
                 if m and isinstance( m['_new'], ast.Name ):
                     d_data = 'prepend'; new = m['_new'].id; acc = t
-                m = pmatch( s.value, '%s + _new' % t )
+                m = pmatch( s_.value, '%s + _new' % t )
                 if m and isinstance( m['_new'], ast.Name ):
                     d_data = 'append'; new = m['_new'].id; acc = t
-                m = pmatch( s.value, '[ 0 ] + [ _o + len( _new ) for _o in %s ]' % t )
+                m = pmatch( s_.value, '[ 0 ] + [ _o + len( _new ) for _o in %s ]' % t )
                 if m:
                     d_off = ( 'prepend', dotted( m['_new'] ))
-                m = pmatch( s.value, '%s + [ len( _acc ) ]' % t )
+                m = pmatch( s_.value, '%s + [ len( _acc ) ]' % t )
                 if m:
                     d_off = ( 'append', dotted( m['_acc'] ))
-            if isinstance( s, ast.AugAssign ) and isinstance( s.op, ast.Add ) and isinstance( s.target, ast.Name ) and isinstance( s.value, ast.Name ):
-                d_data = 'append'; new = s.value.id; acc = s.target.id
+            if isinstance( s_, ast.AugAssign ) and isinstance( s_.op, ast.Add ) and isinstance( s_.target, ast.Name ) and isinstance( s_.value, ast.Name ):
+                d_data = 'append'; new = s_.value.id; acc = s_.target.id
         if d_data is None or d_off is None:
             raise AnalysisError( 'Message_Router.produce: accumulation idiom of a member loop not recognised' )
         good = ( d_iter == 'rev' and d_data == 'prepend' and d_off == ( 'prepend', new )) \
             or ( d_iter == 'fwd' and d_data == 'append' and d_off[0] == 'append' and d_off[1] == acc )
         if good:
-            res.ok( src, f, 'members iterated %s, data %s, offsets %s: original order preserved' % ( d_iter, d_data, d_off[0] ))
+            res.ok( src, f, 'members iterated %s, data %s, offsets %s: original order preserved (%s)' % ( d_iter, d_data, d_off[0], '/'.join( sorted( branches ))))
         else:
             res.bad( src, f, 'iteration %s with data %s / offsets %s' % ( d_iter, d_data, d_off ),
                      'iteration order and accumulation direction do not pair up: members (or their offsets) come out in reversed order' )
+        # how is each member encoded?
+        var = f.target.id if isinstance( f.target, ast.Name ) else None
+        enc = [ s_.value for s_ in f.body if isinstance( s_, ast.Assign ) and isinstance( s_.targets[0], ast.Name ) and s_.targets[0].id == new ]
+        if not enc or var is None:
+            raise AnalysisError( 'Message_Router.produce: member encoder not found' )
+        fresh = pmatch( enc[0], 'cls.produce( %s )' % var )
+        cached = pmatch( enc[0], "octets_encode( %s.input ) if 'input' in %s else cls.produce( %s )" % ( var, var, var ))
+        if 'REQ' in branches:
+            if fresh:
+                res.ok( src, f, 'request members are encoded by cls.produce( member )' )
+            else:
+                res.bad( src, enc[0], enc[0], 'a bundled *request* member must always be freshly produced: a member that carries an .input (e.g. only its data payload) would be embedded instead of its encoding, and the server drops it and every later member' )
+        if 'RPY' in branches:
+            if fresh or cached:
+                res.ok( src, f, 'reply members: the already produced .input, else cls.produce( member )' )
+            else:
+                res.bad( src, enc[0], enc[0], 'reply members must be the member\'s produced .input (or cls.produce( member ))' )
+    for need in ( 'REQ', 'RPY' ):
+        if need not in covered:
+            res.bad( src, pr, 'Message_Router.produce %s branch' % need, 'no member loop serves the %s branch' % need )
     return res
 
 
@@ -1815,4 +1872,104 @@ def t_attrkeys( ctx ):
         res.bad( src, st, 'setup_tag allocation', 'a new tag must be allocated the next free attribute id (largest + 1) and stored under str( id )' )
     if n < 2:
         raise AnalysisError( 'T-ATTRKEYS: attribute id ordering sites not found' )
+    return res
+
+
+# ---------------------------------------------------------------------------------------- C06: P-PROCEED
+
+def _returns_ok( src, cls_node, fn, seen=None ):
+    """every normal exit of fn is `return True` (after producing enip.input) or `return self.<other>( data )` with <other> satisfying the same; no implicit None"""
+    seen = seen or set()
+    if fn.name in seen:
+        return True, ''
+    seen.add( fn.name )
+    cfg = CFG( fn, may_raise=lambda n: False )
+    # falling off the end = an edge into exit that is not a 'return' edge
+    for p, label in cfg.pred[cfg.exit]:
+        if label != 'return':
+            return False, 'a path falls off the end of %s (implicit return None): the caller treats it as "end the session, send nothing"' % fn.name
+    prod = [ n for n in cfg.nodes if n.kind == 'stmt' and pmatch( n.stmt, 'data.enip.input = bytearray( self.parser.produce( data.enip ))' ) ]
+    for n in cfg.nodes:
+        if n.kind == 'stmt' and isinstance( n.stmt, ast.Return ):
+            v = n.stmt.value
+            if v is None:
+                return False, 'bare `return` in %s' % fn.name
+            if isinstance( v, ast.Constant ) and v.value is True:
+                if not prod or not cfg.must_pass( cfg.entry, n, prod, correlated=False ):
+                    return False, '%s returns True on a path that did not produce data.enip.input' % fn.name
+                continue
+            if isinstance( v, ast.Call ) and isinstance( v.func, ast.Attribute ) and dotted( v.func.value ) == 'self':
+                callee = [ m for m in cls_node.body if isinstance( m, ast.FunctionDef ) and m.name == v.func.attr ]
+                if callee:
+                    ok, why = _returns_ok( src, cls_node, callee[0], seen )
+                    if not ok:
+                        return False, why
+                    continue
+            return False, '%s returns %s: a recognised command must report proceed=True' % ( fn.name, norm_text( v ))
+    return True, ''
+
+
+@rule( 'P-PROCEED', props=( 'C06', ), floor=6 )
+def p_proceed( ctx ):
+    """UCMM: every command method returns True after producing its reply (no implicit None); only Unregister clears proceed, and nothing before that can raise"""
+    res = Result( 'P-PROCEED' )
+    src = ctx.src( UCMM )
+    cd = src.get( 'UCMM' )
+    fn = src.get( 'UCMM.request' )
+    # the dispatch: key = the single key of enip.CIP; method = getattr( self, key, None ); proceed = method( data )
+    if pfind( fn, 'method = getattr( self, key, None )' ) and pfind( fn, 'proceed = method( data )' ):
+        res.ok( src, fn, 'other commands are dispatched to the method named after the CIP command and its result becomes proceed' )
+    else:
+        res.bad( src, fn, 'UCMM.request command dispatch', 'unrecognised-by-name commands must be dispatched to their method and its result returned as proceed' )
+    # the command names the CIP parser can produce (keys under enip.CIP): from parser.CIP's COMMAND_PARSERS
+    from .grammar import grammar_of
+    g = grammar_of( ctx )
+    cmds = g.class_const( 'CIP', 'COMMAND_PARSERS' )
+    names = []
+    if isinstance( cmds, dict ):
+        for k, v in cmds.items():
+            nm = getattr( v, 'name', None )
+            if nm:
+                names.append( nm )
+    if not names:
+        raise AnalysisError( 'parser.CIP.COMMAND_PARSERS does not fold' )
+    handled_inline = { 'register', 'unregister', 'send_data' }
+    for nm in sorted( set( names ) - handled_inline ):
+        m = [ x for x in cd.body if isinstance( x, ast.FunctionDef ) and x.name == nm ]
+        if not m:
+            res.bad( src, cd, 'UCMM has no method %r' % nm, 'the CIP parser recognises the %s command but the UCMM cannot answer it (asserts -> error status only)' % nm )
+            continue
+        ok, why = _returns_ok( src, cd, m[0] )
+        if ok:
+            res.ok( src, m[0], 'UCMM.%s: every normal exit returns True after producing data.enip.input' % nm )
+        else:
+            res.bad( src, m[0], 'UCMM.%s' % nm, why )
+    # proceed discipline in request
+    inits = pfind( fn, 'proceed = True' )
+    falses = [ s for s in ast.walk( fn ) if pmatch( s, 'proceed = False' ) ]
+    ub = [ i for i in ast.walk( fn ) if isinstance( i, ast.If ) and "'enip.CIP.unregister'indata" in txt( i.test ) ]
+    if inits and len( falses ) == 1 and ub and falses[0] in ub[0].body:
+        res.ok( src, falses[0], 'proceed starts True and is cleared only by Unregister Session' )
+    else:
+        res.bad( src, fn, 'proceed discipline', 'proceed must start True and be cleared only in the Unregister branch' )
+    # nothing before `proceed = False` in the Unregister branch may raise
+    if ub and falses and falses[0] in ub[0].body:
+        risky = []
+        for s in ub[0].body[:ub[0].body.index( falses[0] )]:
+            for c in ast.walk( s ):
+                if isinstance( c, ast.Call ):
+                    cn = call_name( c )
+                    if cn.startswith( 'log.' ) or cn.startswith( 'logging.' ):
+                        continue
+                    if isinstance( c.func, ast.Attribute ) and c.func.attr in ( 'pop', 'get' ) and len( c.args ) >= 2:
+                        continue			# with a default: cannot raise KeyError
+                    risky.append( c )
+                if isinstance( c, ast.Subscript ) and isinstance( c.ctx, ( ast.Load, ast.Del )):
+                    risky.append( c )
+                if isinstance( c, ( ast.Assert, ast.Raise, ast.Delete )):
+                    risky.append( c )
+        if risky:
+            res.bad( src, risky[0], risky[0], 'may raise before proceed = False: an Unregister Session (e.g. without a prior Register) would be answered with an error reply instead of silently ending the session' )
+        else:
+            res.ok( src, ub[0], 'Unregister: nothing before proceed = False can raise' )
     return res
